@@ -273,6 +273,60 @@ EXT3_MUL_PROOF = r"""
         }"""
 
 EPILOGUE = r'''
+// multiplication in F_p[phi] / (phi^3 + 2 phi + 2) on coefficient triples (the formulas of the ext3 mul contract)
+pub open spec fn m3(a: (int, int, int), b: (int, int, int)) -> (int, int, int) {
+    ((a.0 * b.0 - 2 * (a.1 * b.2 + a.2 * b.1)) % P(),
+     (a.0 * b.1 + a.1 * b.0 - 2 * (a.1 * b.2 + a.2 * b.1) - 2 * (a.2 * b.2)) % P(),
+     (a.0 * b.2 + a.1 * b.1 + a.2 * b.0 - 2 * (a.2 * b.2)) % P())
+}
+pub open spec fn pow3(b: (int, int, int), e: nat) -> (int, int, int)
+    decreases e
+{
+    if e == 0 { (1int, 0int, 0int) } else if e % 2 == 0 { let h = pow3(b, e / 2); m3(h, h) } else { m3(b, pow3(b, (e - 1) as nat)) }
+}
+// the cubic Frobenius constants: phi^p = (FA, FC, FE), phi^(2p) = (FB, FD, FF)
+pub open spec fn FA() -> int { 2061766055618274781 }
+pub open spec fn FB() -> int { 786836585661389001 }
+pub open spec fn FC() -> int { 2868591307402993000 }
+pub open spec fn FD() -> int { 3336695525575160559 }
+pub open spec fn FE() -> int { 2699230790596717670 }
+pub open spec fn FF() -> int { 1743033688129053336 }
+// C11: the constants of the cubic Frobenius are phi^p and phi^(2p) in F_p[phi]/(phi^3 + 2 phi + 2)
+proof fn thm_frobenius3_constants()
+    ensures pow3((0, 1, 0), P() as nat) == (FA(), FC(), FE()),
+            m3((FA(), FC(), FE()), (FA(), FC(), FE())) == (FB(), FD(), FF()),
+{
+    assert(pow3((0, 1, 0), P() as nat) == (FA(), FC(), FE())) by (compute);
+    assert(m3((FA(), FC(), FE()), (FA(), FC(), FE())) == (FB(), FD(), FF())) by (compute);
+}
+// the field element new(v) stands for is v mod p
+pub proof fn lemma_val_new(r0: int, v: int)
+    requires (r0 * R()) % P() == (v * R2 as int) % P(),
+    ensures vali(r0) == v % P(),
+{
+    use vstd::arithmetic::div_mod::*;
+    let i = INV();
+    let a = r0 * R();
+    let b = v * R2 as int;
+    lemma_mul_mod_noop_left(a, i * i, P());
+    lemma_mul_mod_noop_left(b, i * i, P());
+    assert(a * (i * i) == (r0 * i) * (R() * i)) by (nonlinear_arith) requires a == r0 * R();
+    assert((R() * INV()) % P() == 1) by (compute);
+    lemma_mul_mod_noop_right(r0 * i, R() * i, P());
+    assert(b * (i * i) == v * (R2 as int * (i * i))) by (nonlinear_arith) requires b == v * R2 as int;
+    assert((R2 as int * (INV() * INV())) % P() == 1) by (compute);
+    lemma_mul_mod_noop_right(v, R2 as int * (i * i), P());
+}
+pub proof fn lemma_new_const(c: int)
+    requires 0 <= c < P(),
+    ensures forall|e: BaseElement| #![trigger val(e)] (e.0 as int * R()) % P() == (c * R2 as int) % P() ==> val(e) == c,
+{
+    assert forall|e: BaseElement| #![trigger val(e)] (e.0 as int * R()) % P() == (c * R2 as int) % P() implies val(e) == c by {
+        lemma_val_new(e.0 as int, c);
+        vstd::arithmetic::div_mod::lemma_small_mod(c as nat, P() as nat);
+    }
+}
+
 proof fn thm_constants()
     ensures M as int == P(), (R2 as int) % P() == (R() * R()) % P(), (R2 as int) < P(),
             (R3 as int) % P() == (R() * R() * R()) % P(), (U as int * P()) % R() == R() - 1,
@@ -455,6 +509,23 @@ UNIT = {
             assert(2 * self.0 as int == self.0 as int + self.0 as int);
         }"""}]}]},
         {"kind": "impl", "file": F, "header": "impl ExtensibleField<3> for BaseElement", "extra": EXT3_EXTRA, "methods": [
+            {"name": "frobenius", "ret": "r", "fnlabel": "f62 <BaseElement as ExtensibleField<3>>::frobenius", "ob": "C10.f62.ext3.frobenius.contract",
+             "spec": "ensures wf(r[0]), wf(r[1]), wf(r[2]),\n"
+                     "    // x0 + x1 phi^p + x2 phi^(2p) with phi^p = (FA, FC, FE), phi^(2p) = (FB, FD, FF) (thm_frobenius3_constants)\n"
+                     "    val(r[0]) == (val(x[0]) + FA() * val(x[1]) + FB() * val(x[2])) % P(),\n"
+                     "    val(r[1]) == (FC() * val(x[1]) + FD() * val(x[2])) % P(),\n"
+                     "    val(r[2]) == (FE() * val(x[1]) + FF() * val(x[2])) % P(),",
+             "ghost": [{"at": "start", "text": r"""
+        proof {
+            use vstd::arithmetic::div_mod::*;
+            let (x0, x1, x2) = (val(x[0]), val(x[1]), val(x[2]));
+            lemma_new_const(FA()); lemma_new_const(FB()); lemma_new_const(FC());
+            lemma_new_const(FD()); lemma_new_const(FE()); lemma_new_const(FF());
+            lemma_add_mod_noop_right(x0, FA() * x1, P());
+            lemma_add_mod_noop(x0 + FA() * x1, FB() * x2, P());
+            lemma_add_mod_noop(FC() * x1, FD() * x2, P());
+            lemma_add_mod_noop(FE() * x1, FF() * x2, P());
+        }"""}]},
             {"name": "mul", "ret": "r", "attrs": "#[verifier::rlimit(300)]\n", "fnlabel": "f62 <BaseElement as ExtensibleField<3>>::mul", "ob": "C10.f62.ext3.mul.contract",
              "spec": "ensures wf(r[0]), wf(r[1]), wf(r[2]),\n"
                      "    // (a0 + a1 phi + a2 phi^2)(b0 + b1 phi + b2 phi^2) with phi^3 = -2 phi - 2\n"
@@ -467,6 +538,7 @@ UNIT = {
         ]},
     ],
     "epilogue": EPILOGUE,
-    "theorems": {"thm_constants": "C11.f62.constants.M_R2_R3_U", "thm_roundtrip": "C11.f62.as_int_new.identity"},
+    "theorems": {"thm_constants": "C11.f62.constants.M_R2_R3_U", "thm_roundtrip": "C11.f62.as_int_new.identity",
+                 "thm_frobenius3_constants": "C11.f62.ext3.frobenius_constants.pth_power"},
     "assumptions": [],
 }
